@@ -13,7 +13,8 @@ RULE = ("real HasTraits classes for the four prefix styles (same name, explicit 
         "DelegatesTo / PrototypedFrom, chains of length <= 3 (incl. DelegatesTo through PrototypedFrom and the "
         "reverse, renaming at every level, '*' chains with equal / different class prefixes), SUBCLASSES of the "
         "deferring class (inheriting __prefix__ without restating it, restating it, overriding it, overriding an "
-        "attribute; instances of base and subclasses side by side) and malformed shapes "
+        "attribute, RE-DECLARING an inherited deferring attribute under the same name with another prefix / style / "
+        "kind; instances of base and subclasses side by side, sharing the target objects) and malformed shapes "
         "(missing target, '*' without / with empty __prefix__); seeded random histories of 1-12 operations after a "
         "bottom-up / top-down / partial / absent wiring of the chain: assign through any object and attribute "
         "(valid, rejected, k-th-operation-fails validators), delete, re-point the delegate (object or None), read; "
@@ -22,7 +23,7 @@ RULE = ("real HasTraits classes for the four prefix styles (same name, explicit 
         "object of every forwarder are compared with the Lean model; corpus: the witness histories of the Lean "
         "refutations (F18-F20), the `del`-raises-after-deleting branches, chains of 99 / 100 / 101 levels (the "
         "100-step recursion limit); quick: 2000 histories for each of the 8 style x kind shapes + 500 for each of 8 "
-        "chain shapes and 3 subclass shapes + 150 for each of 3 malformed shapes, thorough: 6250 / 3000 / 1000; a case is non-trivial when "
+        "chain shapes and 5 subclass shapes + 150 for each of 3 malformed shapes, thorough: 6250 / 3000 / 1000; a case is non-trivial when "
         "some operation changed a value or the forwarder table, raised, or produced an event; distinct = distinct "
         "case line")
 TRUSTED = [
@@ -67,6 +68,10 @@ def corpus():
         mk("star2-deep", "id,id", "sw 2 3;sw 1 2;sw 0 1;st 1 a_x 6;st 0 x 5;sw 2 N;dl 0 x;rd 0 x;dl 0 x"),
         # '*' through a subclass that inherits __prefix__ / restates it / overrides it
         mk("star-sub", "id,id", "sw 0 5;sw 1 5;sw 2 5;sw 4 5;st 5 q_x 9;st 5 x 2;st 0 x 6;st 0 y 1;st 2 x 4;dl 0 y;st 5 q_y 0"),
+        # a subclass re-declares inherited deferring attributes with another prefix / kind: changes of the OLD
+        # (base class's) targets and of the NEW targets, seen from a base instance (0) and subclass instances (1, 2)
+        mk("redeclare", "id,id", "sw 0 4;sw 1 4;sw 2 4;sw 3 4;st 4 x 6;st 4 val 7;st 4 p_z 1;st 4 z 2;st 4 p_y 3;"
+                                 "st 4 q_x 4;st 4 other 5;st 4 p_x 8;st 1 x 9;st 1 z 0;dl 1 z;st 2 z 6"),
         # prototype life cycle
         mk("same-P", "rejneg,id", "sw 1 2;sw 0 1;st 2 x 4;st 0 x -1;st 0 x 6;st 2 x 5;dl 0 x;st 2 x 8;sw 0 3;st 3 x 9"),
         # the 100-step recursion limit of setattr_delegate / base_trait: chains of 99, 100, 101 deferring levels
